@@ -15,6 +15,10 @@ import (
 const preludeStd = `(declare-fun lower (B) B)
 (declare-fun upper (B) B)
 (declare-fun trim (B) B)
+(declare-fun lead (B) Int)
+(declare-fun trail (B) Int)
+(assert (forall ((x B)) (! (and (<= 0 (lead x)) (<= 0 (trail x)) (<= (+ (lead x) (trail x)) (blen x)) (= (trim x) (sub x (lead x) (- (blen x) (trail x))))) :pattern ((trim x)))))
+(assert (forall ((x B)) (! (and (<= 0 (lead x)) (<= (lead x) (blen x))) :pattern ((lead x)))))
 (declare-fun itoa (Int) B)
 (declare-fun ftoa (F64) B)
 (declare-fun parseInt (B) Int)
@@ -63,7 +67,13 @@ func (f *frame) stdlib(i *ssa.Call, full string, args []T, st *State, pc string)
 	case "strings.ToUpper":
 		return nb("(upper " + v(0) + ")"), pc, true
 	case "strings.TrimSpace":
+		// T-STD: removes lead(s) bytes of leading and trail(s) bytes of trailing white space
 		return nb("(trim " + v(0) + ")"), pc, true
+	case "strings.TrimLeftFunc":
+		// only with unicode.IsSpace: removes the same leading white space TrimSpace removes
+		if fn, ok := i.Call.Args[1].(*ssa.Function); ok && fn.String() == "unicode.IsSpace" {
+			return nb("(sub " + v(0) + " (lead " + v(0) + ") (blen " + v(0) + "))"), pc, true
+		}
 	case "bytes.ToLower":
 		return nb("(lower " + v(0) + ")"), pc, true
 	case "bytes.ToUpper":
